@@ -1010,7 +1010,7 @@ class Exec:
                 return cand
         return None
 
-    def for_each_inductive(s, st, ic, cc, where):
+    def for_each_inductive(s, st, ic, cc, where, ac=None):
         """Replace the unrolling of `iter.for_each(closure)` by induction over the iteration number K:
            (1) run iteration 0 to learn what one iteration changes (counters +d, ledger entries at one index);
            (2) hypothesise Inv(K): counters = entry + K*d, ledger[J] = after-state for the K indices already visited;
@@ -1023,10 +1023,12 @@ class Exec:
         if len(firsts) != 1:
             return None
         s1, _, v = firsts[0]
-        rets = [x for x in s.call_closure2(s1, cc, [v], where) if x[1] == 'ret']
+        rets = [x for x in s.call_closure2(s1, cc, [v] if ac is None else [s1.heap[ac], v], where) if x[1] == 'ret']
         if len(rets) != 1:
             return None
         st1 = rets[0][0]
+        if ac is not None:
+            st1.heap[ac] = rets[0][2]
         K = mkint('K%d' % next(State._ids))
         inv = st0.clone()
         inv.pc = list(st0.pc)
@@ -1057,6 +1059,8 @@ class Exec:
             if isinstance(vk_, dict):
                 if vk_.get('kind') == 'slice':
                     inv.pc.append(z3.And(ULE(v0_['pos'], vk_['pos']), ULE(vk_['pos'], vk_['end'])))
+                if vk_.get('kind') == 'rslice':
+                    inv.pc.append(z3.And(ULE(vk_['end'], v0_['end']), ULE(vk_['pos'], vk_['end'])))
                 if vk_.get('kind') == 'source' and 'count' in vk_:
                     inv.pc.append(z3.And(ULE(v0_['yielded'], vk_['yielded']), ULE(vk_['yielded'], vk_['count'])))
                 for k_ in vk_:
@@ -1075,30 +1079,68 @@ class Exec:
         if not (z3.is_bv_value(dv) or z3.is_int_value(dv)) or dv.as_long() not in (0, 1):
             return None
         inv.vid = v0 + K * dv
-        # ledger: one index per array and iteration
+        # ledger: per array, one index (or a two-element "trail") changes per iteration; the index is a *term* over the entry state:
+        # the old value of an advancing counter, the new value of a retreating one, or the id of the value produced by caller code
+        cands = []
+        for (cell, path), d in deltas.items():
+            a0 = None
+            for (pth, x, _) in s._leaf_pairs(st0.heap[cell], st0.heap[cell]):
+                if pth == path:
+                    a0 = x
+            if a0 is None:
+                continue
+            dl = d.as_long()
+            if dl == 1:
+                cands.append((a0, 1))
+            elif (is_int() and dl == -1) or (not is_int() and dl == 2 ** W - 1):
+                cands.append((a0 - 1, -1))
+        cands.append((v0 + 1, 1))
+        cands.append((v0, 1))
+
+        def valid(stx, f):
+            so = s._solver()
+            so.add(*stx.pc)
+            so.add(z3.Not(f))
+            s.nq += 1
+            return so.check() == z3.unsat
+
+        def in_range(c, dj, k):
+            return z3.And(UGE(s.J, c), ULT(s.J, c + k)) if dj == 1 else z3.And(UGE(s.J, c + 1 - k), ULE(s.J, c))
         ledger_t = {}
         for arr in st1.status:
             t1, t0 = st1.status[arr], st0.status.get(arr, UNINIT)
-            if t1.eq(t0):
+            if t1.eq(t0) or valid(st1, t1 == t0):
                 continue
-            so = s._solver()
-            so.add(*st1.pc)
-            so.add(t1 != t0)
-            s.nq += 1
-            if so.check() != z3.sat:
-                continue
-            j0 = so.model().eval(s.J, model_completion=True)
-            so.add(s.J != j0)
-            s.nq += 1
-            if so.check() != z3.unsat:
-                return None          # more than one index changes per iteration
+            found = None
+            for (c, dj) in cands:
+                if valid(st1, z3.Implies(t1 != t0, s.J == c)):
+                    found = (c, dj, None)
+                    break
+            if found is None:
+                for (c, dj) in cands:
+                    if dj == 1 and valid(st1, z3.Implies(t1 != t0, z3.Or(s.J == c, s.J == c + 1))):
+                        found = (c, dj, 'trail')
+                        break
+            if found is None:
+                return None
+            c, dj, trail = found
             s1j = st1.clone()
-            s1j.pc.append(s.J == j0)
+            s1j.pc.append(s.J == c)
             after = s._uniq_state(s1j, t1)
             if after is None:
                 return None
-            ledger_t[arr] = (j0, after)
-            inv.status[arr] = z3.If(z3.And(UGE(s.J, j0), ULT(s.J, j0 + K)), after, t0)
+            if trail is None:
+                ledger_t[arr] = (c, dj, after, None)
+                inv.status[arr] = z3.If(in_range(c, dj, K), after, t0)
+            else:
+                s1k = st1.clone()
+                s1k.pc.append(s.J == c + 1)
+                head = s._uniq_state(s1k, t1)
+                if head is None:
+                    return None
+                ledger_t[arr] = (c, dj, after, head)
+                inv.status[arr] = z3.If(in_range(c, dj, K), after, z3.If(s.J == c + K, head, t0))
+                s.require(st0, z3.Implies(s.J == c, t0 == head), 'loop invariant template: base case (state of the value at the head of the trail)', where)
         inv.events = list(st0.events) + ['... %s iterations (by induction: counters %s, one element of %s per iteration) ...' % (
             K, sorted({str(d) for d in deltas.values()}), sorted(a.name for a in ledger_t))]
         s.discharged.append(('loop invariant template instantiated', where))
@@ -1106,14 +1148,16 @@ class Exec:
         out = []
         for (sa, kk, vv) in s.iter_next(inv, ic, (), where):
             if kk == 'none':
-                out.append((sa, 'ret', UNIT))
+                out.append((sa, 'ret', UNIT if ac is None else sa.heap[ac]))
             elif kk == 'unwind':
                 out.append((sa, 'unwind', None))
             else:
-                for (sb, k2, _) in s.call_closure2(sa, cc, [vv], where):
+                for (sb, k2, r2) in s.call_closure2(sa, cc, [vv] if ac is None else [sa.heap[ac], vv], where):
                     if k2 != 'ret':
                         out.append((sb, 'unwind', None))
                         continue
+                    if ac is not None:
+                        sb.heap[ac] = r2
                     # inductiveness: sb must be Inv(K+1)
                     try:
                         for cell in st0.heap:
@@ -1129,8 +1173,11 @@ class Exec:
                     for arr in sb.status:
                         t0 = st0.status.get(arr, UNINIT)
                         if arr in ledger_t:
-                            j0, after = ledger_t[arr]
-                            target = z3.If(z3.And(UGE(s.J, j0), ULT(s.J, j0 + K + 1)), after, t0)
+                            c, dj, after, head = ledger_t[arr]
+                            if head is None:
+                                target = z3.If(in_range(c, dj, K + 1), after, t0)
+                            else:
+                                target = z3.If(in_range(c, dj, K + 1), after, z3.If(s.J == c + K + 1, head, t0))
                         else:
                             target = t0
                         if not sb.status[arr].eq(target):
@@ -1147,6 +1194,33 @@ class Exec:
             s.inductive_failed += 1
             if s.inductive == 'strict':
                 raise Inconclusive('loop invariant template does not fit the loop at %s' % where)
+        if s.inductive and fold_init is not None:
+            # a fold: iteration 0 is executed as is (the accumulator changes from the caller's initial value to a value produced by the
+            # closure); the induction starts from the state after it, with the accumulator in a heap cell
+            out = []
+            ok = True
+            for (s1, kk, v) in s.iter_next(st, ic, (), where):
+                if kk == 'none':
+                    out.append((s1, 'ret', fold_init))
+                elif kk == 'unwind':
+                    out.append((s1, 'unwind', None))
+                else:
+                    for (s2, k2, r2) in s.call_closure2(s1, cc, [fold_init, v], where):
+                        if k2 != 'ret':
+                            out.append((s2, 'unwind', None))
+                            continue
+                        ac = s2.new_cell(r2)
+                        res = s.for_each_inductive(s2, ic, cc, where, ac=ac)
+                        if res is None:
+                            ok = False
+                        else:
+                            out += res
+            if ok:
+                s.inductive_used += 1
+                return out
+            s.inductive_failed += 1
+            if s.inductive == 'strict':
+                raise Inconclusive('loop invariant template does not fit the fold at %s' % where)
         out, work = [], [(st, 0, fold_init)]
         while work:
             st, k, acc = work.pop()
